@@ -32,6 +32,16 @@
 (*      spliced from another message.  spec/mc/MC_Decode_gen enumerates    *)
 (*      them with TLC and prints one plan per (layout, field).             *)
 (*                                                                         *)
+(*      LARGE INPUTS (same part, further plans): a repeated group          *)
+(*      re-encoded with a limit's worth of verbatim copies of its first    *)
+(*      item, also with a boundary value in every copy (RepeatOps); many    *)
+(*      VALID items built by the real encoders at half / at / one over the  *)
+(*      limits of both chain types (BigCounts); a block header moved to     *)
+(*      every hard-fork boundary x header version x edge_bits class with    *)
+(*      re-packed nonces (EraOps); a frame's announced length set to the    *)
+(*      boundary of what its type admits, the body present (FrameLenOps);   *)
+(*      JSON arrays of 0 .. 100 000 elements.                               *)
+(*                                                                         *)
 (*  (3) the CATALOGUE OF POST-DECODE STEPS.  A decoder returning Ok is not   *)
 (*      the end of the untrusted path: the message handlers                *)
 (*      (p2p/src/protocol.rs `consume`, servers/src/common/adapters.rs,    *)
@@ -160,7 +170,8 @@ AllocA(d, ct) ==
       [] d \in BitmapDecoders  -> 4 * MiB
       [] d = "Codec::read"     -> CodecMaxMsg(ct) + 4 * MiB + 64 * KiB
       [] OTHER                 -> 128 * KiB
-AllocB(d, ct) == 16
+\* (stratum requests are parsed into a free-form JSON tree, 32 bytes per value and twice that while its vector grows)
+AllocB(d, ct) == IF d = "stratum::submit" THEN 64 ELSE 16
 Bound(d, ct, len) == AllocA(d, ct) + AllocB(d, ct) * len
 
 \* decoders that read a fixed number of bytes and no length-prefixed field
@@ -216,12 +227,15 @@ SegSteps == <<"SegmentIdentifier::arith", "Segment::segment_pos_range", "Segment
               "Segment::validate", "Segment::validate_with", "Segment::accessors", "Segment::parts">>
 BitmapSteps == <<"BitmapSegment::into_segment">> \o SegSteps \o <<"BitmapAccumulator::append_chunk", "BitmapSegment::from<Segment>">>
 SegReqSteps == <<"SegmentIdentifier::arith", "Segment::from_pmmr">>
-TxSteps == <<"Transaction::validate_read", "Transaction::hash", "Transaction::fees", "Inputs::conversions", "TxKernel::verify",
+\* "hooks::webhook_payload": servers/src/common/hooks.rs WebHook::on_{transaction,block,header}_received build and serialise
+\* json!({"hash": .., "peer": .., "data": <the value>}) of a value that has not been validated yet (adapters.rs:
+\* transaction_received, compact_block_received after hydration, header_received)
+TxSteps == <<"Transaction::validate_read", "Transaction::hash", "hooks::webhook_payload", "Transaction::fees", "Inputs::conversions", "TxKernel::verify",
              "Transaction::validate">>
 HeaderSteps == <<"BlockHeader::accessors", "ProofOfWork::to_difficulty">>
 BlockSteps == <<"Block::validate_read", "Block::hash">> \o HeaderSteps \o
               <<"Block::total_fees", "Inputs::conversions", "Block::verify_coinbase", "Block::validate", "CompactBlock::from<Block>">>
-CompactSteps == <<"CompactBlock::accessors">> \o HeaderSteps \o <<"Block::hydrate_from", "Block::validate">>
+CompactSteps == <<"CompactBlock::accessors">> \o HeaderSteps \o <<"Block::hydrate_from", "hooks::webhook_payload", "Block::validate">>
 MerkleSteps == <<"MerkleProof::verify", "MerkleProof::to_hex">>
 \* Protocol::consume dispatches on the message type: Codec::read is followed by the steps of whatever it delivered
 CodecSteps == <<"Message::fmt">> \o TxSteps \o <<"UntrustedBlock::into<Block>", "Block::validate_read", "Block::hash">> \o HeaderSteps \o
@@ -240,8 +254,8 @@ PostSteps(d) ==
       [] d \in {"Transaction::read", "api::push_tx_hex", "json::Transaction"} -> TxSteps
       [] d = "TransactionBody::read" -> <<"TransactionBody::validate_read">>
       [] d = "TxKernel::read" -> <<"TxKernel::verify", "TxKernel::accessors">>
-      [] d = "BlockHeader::read" -> HeaderSteps
-      [] d = "UntrustedBlockHeader::read" -> <<"UntrustedBlockHeader::into<BlockHeader>">> \o HeaderSteps
+      [] d = "BlockHeader::read" -> HeaderSteps \o <<"hooks::webhook_payload">>
+      [] d = "UntrustedBlockHeader::read" -> <<"UntrustedBlockHeader::into<BlockHeader>">> \o HeaderSteps \o <<"hooks::webhook_payload">>
       [] d = "Block::read" -> BlockSteps
       [] d = "UntrustedBlock::read" -> <<"UntrustedBlock::into<Block>">> \o BlockSteps
       [] d = "CompactBlock::read" -> CompactSteps
@@ -255,6 +269,9 @@ PostSteps(d) ==
       [] d = "Locator::read" -> <<"Locator::accessors">>
       [] d = "TxHashSetArchive::read" -> <<"TxHashSetArchive::attachment_meta">>
       [] d = "util::from_hex" -> <<"Commitment::from_vec", "Hash::from_vec">>
+      \* servers/src/mining/stratumserver.rs: the params of a "submit" request go to Handler::handle_submit (parameter parsing,
+      \* header reconstruction from the submitted nonce / edge_bits / cycle, share difficulty, verify_size)
+      [] d = "stratum::submit" -> <<"stratum::handle_submit">>
       [] d = "Codec::read" -> CodecSteps
       [] OTHER -> <<>>
 StepSet(d) == {PostSteps(d)[i] : i \in 1..Len(PostSteps(d))}
@@ -290,7 +307,7 @@ Begin(d, ct, v, len, fr) ==
     /\ phase' = IF d \in StreamDecoders THEN "stream" ELSE "call"
     /\ cur' = [dec |-> d, ct |-> ct, ver |-> v, len |-> len, fr |-> fr]
     /\ used' = 0 /\ reads' = 0 /\ pstep' = 0
-    /\ UNCHANGED last
+    /\ last' = NoLast                      \* (the record of the previous call has been judged: it does not multiply the states of this one)
 
 \* the decoder returned a value (a stream decoder: delivered a message) and the handler runs its next unconditional step on it
 PostStep ==
@@ -323,13 +340,19 @@ End(out, n, peak, sv) ==
                  fr |-> cur.fr, served |-> sv]
     /\ phase' = "idle" /\ cur' = NoCall /\ used' = 0 /\ reads' = 0 /\ pstep' = 0
 
-PeakChoices(d, ct, len) == {0, DecA(d, ct), DecA(d, ct) + 1, Bound(d, ct, len), Bound(d, ct, len) + 1, 64 * KiB + 16 * len, 64 * KiB + 16 * len + 1}
+\* the bounded model tries no allocation, exactly the bound of the call that is ending, and one byte more
+PeakChoices(out, n) == LET b == CallBound(cur.dec, cur.ct, cur.len, cur.fr, out, used + n) IN {0, b, b + 1}
+ServedChoices == IF "Segment::from_pmmr" \in StepSet(cur.dec) THEN ModelServed ELSE {<<>>}
 
+\* (bounded model only: the record of a judged call is dropped before the next call begins, so that the calls do not multiply)
+Forget == phase = "idle" /\ last # NoLast /\ last' = NoLast /\ UNCHANGED <<phase, cur, used, reads, pstep>>
+ModelBegin(d, len, fr) == last = NoLast /\ Begin(d, "auto", 1, len, fr)
 Next ==
-    \/ \E d \in ModelDecoders, len \in ModelLens : \E fr \in ModelFrames(d) : Begin(d, "auto", 1, len, fr)
+    \/ Forget
+    \/ \E d \in ModelDecoders, len \in ModelLens : \E fr \in ModelFrames(d) : ModelBegin(d, len, fr)
     \/ \E n \in 0..3 : Read(n)
     \/ PostStep
-    \/ \E out \in AllOutcomes, n \in 0..11 : \E p \in PeakChoices(cur.dec, cur.ct, cur.len) : \E sv \in ModelServed : End(out, n, p, sv)
+    \/ \E out \in AllOutcomes, n \in {0, 1, 2, 3, FrameHeaderLen} : \E p \in PeakChoices(out, n) : \E sv \in ServedChoices : End(out, n, p, sv)
 
 Spec == Init /\ [][Next]_vars
 
@@ -370,6 +393,8 @@ IntKinds == {"u8", "u16", "u32", "u64", "len"}
 \* negative, 0, 2^64-1, 2^64, 1e400, array, object, boolean, numeric string, one hex byte, lone surrogate escape).
 JsonKinds == {"js", "jn"}
 JsonClasses == 20
+\* "ja" a JSON array (the whole bracketed text; its elements are fields of their own): replaced by n copies of its first element
+JsonArrayLens == {0, 1, 2, 7, 8, 9, 41, 42, 43, 84, 1000, 100000}
 V(e, d) == [op |-> "set", e |-> e, d |-> d]
 Lit(n) == V(-1, n)
 
@@ -405,6 +430,7 @@ FieldOps(lay, i, donor, sweepFirst) ==
         j == ((i * 5) % Len(donor.kinds)) + 1
     IN  (IF k \in IntKinds THEN ValueClasses(lay.w[i], Limits(lay.dec, lay.ct)) ELSE {})
         \cup (IF k \in JsonKinds THEN {[op |-> "json", k |-> n] : n \in 0..(JsonClasses - 1)} ELSE {})
+        \cup (IF k = "ja" THEN {[op |-> "jarray", n |-> n] : n \in JsonArrayLens} ELSE {})
         \cup (IF k = "u8" /\ U8Rank(lay, i) <= sweepFirst THEN {[op |-> "sweep"]} ELSE {})
         \cup {[op |-> "trunc"], [op |-> "drop"], [op |-> "dup"],
               [op |-> "splice", from |-> donor.id, g |-> j, mode |-> "replace"],
@@ -429,19 +455,20 @@ IdentOK(lay) ==
                      /\ lay.kinds[lay.ih] = "u8" /\ lay.kinds[lay.ii] = "u64"
     /\ lay.pf > 0 => lay.pf \in 1..Len(lay.kinds) /\ lay.kinds[lay.pf] = "u64"
 
-\* ---- MANY ITEMS.  A layout may carry repeated groups lay.grp[k] = <<c, a, z, e>>: count field c, the first item is the
+\* ---- MANY ITEMS.  A layout may carry repeated groups lay.grp[k] = <<c, a, z, e, bytes>>: count field c, the first item is the
 \* fields a..z, the group ends with field e.  The group is re-encoded with n verbatim copies of its first item (count field
 \* set to n) for n = every limit of the decoder, one less, one more, and as many copies as fit RepeatMaxBytes; and, at the
 \* largest of those counts, with every copy carrying a boundary value in one of the item's own small integer fields (the
 \* per-item limits - chunks per bitmap block, tag bytes - are only reached when the item count is).
-ItemBytes(lay, g) == LET RECURSIVE sum(_)
-                         sum(i) == IF i > g[3] THEN 0 ELSE lay.w[i] + sum(i + 1)
-                     IN sum(g[2])
+ItemBytes(lay, g) == g[5]          \* bytes of the first item (exported with the group: <<c, a, z, e, bytes>>)
 RepeatLimits(lay) == Limits(lay.dec, lay.ct) \cup {2, 64, 65}
 RepeatCounts(lay, g, maxBytes) ==
     LET ib == ItemBytes(lay, g)
         fill == maxBytes \div ib
     IN  {n \in UNION {{l - 1, l, l + 1} : l \in RepeatLimits(lay)} \cup {fill} : n >= 2 /\ n <= fill}
+\* the count field alone (the items stay as they are) set to every power of two and its successor up to 2^24: a limit
+\* constant that has been moved is met whatever its new value is
+CountOnly == {V(k, dd) : k \in 1..24, dd \in {0, 1}}
 \* the first few small integer fields of the item
 InnerFields(lay, g) == {i \in g[2]..g[3] : lay.kinds[i] \in {"u8", "u16"} /\ Cardinality({j \in g[2]..i : lay.kinds[j] \in {"u8", "u16"}}) <= 4}
 \* a bitmap segment admits 2^height / 64 blocks: its blocks are repeated under the identifier {height 13, idx 0}
@@ -450,12 +477,13 @@ RepeatOps(lay, maxBytes) ==
     {[op |-> "repeat", c |-> lay.grp[k][1], a |-> lay.grp[k][2], z |-> lay.grp[k][3], e |-> lay.grp[k][4],
       ns |-> RepeatCounts(lay, lay.grp[k], maxBytes),
       nis |-> {n \in RepeatCounts(lay, lay.grp[k], maxBytes \div 4) : n \in RepeatLimits(lay) /\ n <= 10000},
+      cs |-> CountOnly,
       inner |-> {[g |-> i, vs |-> ValueClasses(lay.w[i], Limits(lay.dec, lay.ct))] : i \in InnerFields(lay, lay.grp[k])},
       idh |-> IF lay.ih > 0 /\ BitmapLayout(lay) THEN 13 ELSE -1]
      : k \in 1..Len(lay.grp)}
 GroupsOK(lay) == \A k \in 1..Len(lay.grp) :
     LET g == lay.grp[k] IN g[1] \in 1..Len(lay.kinds) /\ g[1] < g[2] /\ g[2] <= g[3] /\ g[3] <= g[4] /\ g[4] <= Len(lay.kinds)
-                           /\ lay.kinds[g[1]] \in IntKinds
+                           /\ lay.kinds[g[1]] \in IntKinds /\ g[5] >= 1
 
 \* ---- HARD-FORK ERAS.  A layout that carries a block header (lay.hv / hh / he: its version, height and edge_bits fields;
 \* 0 = none) gets the joint plan: heights around every hard-fork boundary of the layout's chain type x header versions
@@ -466,9 +494,9 @@ HardForkHeights(ct) ==
     CASE ct = "main" -> {262080 * k : k \in 0..5}
       [] ct = "test" -> {0, 185040, 298080, 552960, 642240}
       [] OTHER       -> {3 * k : k \in 0..5}
-EraHeights(ct) == {h \in UNION {{f - 1, f, f + 1} : f \in HardForkHeights(ct)} : h >= 0}
+EraHeights(ct) == {h \in UNION {{f - 1, f} : f \in HardForkHeights(ct)} : h >= 0}
 EraVersions == 0..6
-EraEdgeBits == {0, 1, 9, 10, 11, 15, 28, 29, 30, 31, 32, 33, 62, 63, 64, 255}
+EraEdgeBits == {0, 1, 10, 28, 29, 30, 31, 32, 63, 64}
 EraOps(lay) ==
     IF lay.hv = 0 THEN {}
     ELSE {[op |-> "era", g |-> lay.hh, e |-> lay.he, hs |-> EraHeights(lay.ct), vs |-> EraVersions, bs |-> EraEdgeBits]}
@@ -482,6 +510,10 @@ FrameLens(t, ct) ==
     LET a == FrameAdmit(t, ct) IN
     {l \in {a - 1, a, a + 1, 2 * a, 16 * a + 1, MaxFrameAdmit(ct), MaxFrameAdmit(ct) + 1} : l >= 0}
 FrameLenOps(lay) == IF lay.fty < 0 THEN {} ELSE {[op |-> "framelen", ls |-> FrameLens(lay.fty, lay.ct)]}
+\* ---- SILENCE.  Every other stream input ends with the peer closing its side.  A Ping frame (one per chain type that has
+\* one) is also delivered only up to `cut` bytes of its header, after which the peer stays connected and silent: the decoder
+\* must still end (its header timeout), which the watchdog judges like any other hang.
+SilentOps(lay) == IF lay.fty = 3 THEN {[op |-> "silent", cuts |-> {5}]} ELSE {}
 
 \* ---- MANY VALID ITEMS.  The harness can build, with the repository's own encoders, the families of encodings it lists
 \* (records [fam, kind, unit, limit, lo, cts]) at any item count; the counts are half the limit, the limit and one more,
@@ -506,4 +538,5 @@ PlanOK(lay, i, ops) ==
     /\ \A o \in ops : o.op = "set" => (lay.kinds[i] \in IntKinds /\ (o.e >= 8 * lay.w[i] => (o.e = 8 * lay.w[i] /\ o.d < 0)))
     /\ \A o \in ops : o.op = "sweep" => lay.kinds[i] = "u8"
     /\ \A o \in ops : o.op = "json" => lay.kinds[i] \in JsonKinds /\ o.k \in 0..(JsonClasses - 1)
+    /\ \A o \in ops : o.op = "jarray" => lay.kinds[i] = "ja"
 =============================================================================
